@@ -21,7 +21,13 @@ def main():
             sel.append(args[i])
         i += 1
     bad = []
-    for n in NEUTRAL:
+    items = list(NEUTRAL)
+    # directories with a patch.diff (independently written behaviour-preserving rewrites, see neutral/README.md)
+    pdir = os.path.join(VERIF, "neutral")
+    for d in sorted(os.listdir(pdir)):
+        if os.path.exists(os.path.join(pdir, d, "patch.diff")):
+            items.append({"name": d, "patch": os.path.join(pdir, d, "patch.diff"), "edits": []})
+    for n in items:
         if sel and n["name"] not in sel:
             continue
         scratch = tempfile.mkdtemp(prefix="verif-neutral-")
@@ -29,6 +35,10 @@ def main():
             dst = os.path.join(scratch, "cors")
             shutil.copytree("/repo", dst, ignore=shutil.ignore_patterns(".git"))
             ok = True
+            if n.get("patch"):
+                pr = subprocess.run(["patch", "-p1", "-i", n["patch"]], cwd=dst, stdout=subprocess.PIPE, stderr=subprocess.STDOUT, text=True)
+                if pr.returncode != 0:
+                    print(n["name"], "patch does not apply:", pr.stdout[-300:]); ok = False
             for (fn, old, new) in n["edits"]:
                 p = os.path.join(dst, fn)
                 s = open(p).read()
